@@ -49,6 +49,7 @@ ROUTE = {
     "l2hdr": "l2tp", "l2avp": "l2tp", "l2v3": "l2tp",
     "d6msg": "dhcp6", "d6relay": "dhcp6", "d6reply": "dhcp6",
     "o82ins": "relay", "o82strip": "relay", "setopt": "relay", "getopt": "relay", "v6unwrap": "relay", "v6txid": "relay",
+    "v6duid": "relay", "v6repl": "relay", "v6life": "relay", "gihops": "relay",
     "d4parse": "dhcp", "sub82p": "dhcp",
     "d4msg": "dhcp4",
     "sub82": "ipoe",
@@ -542,7 +543,9 @@ def gen_cases(rng, tier, budget):
 
     # --- PPP dispatcher -------------------------------------------------------------------------------------------
     protos = [0xc021, 0xc023, 0xc223, 0x8021, 0x8057, 0x0057, 0x0021, 0xc025, 0x0000, 0xffff]
-    cfgs = [(0, 0, 0), (1, 0, 0), (2, 0, 0), (3, 0, 0), (0, 0, 1), (1, 0, 1), (1, 1, 1), (2, 1, 2), (3, 1, 1), (0, 1, 1)]
+    # every ppp.Phase value (0 Authenticate, 1 Network, 2 Open, 3 no PhaseFn, 4 Dead, 5 Establish, 6 Terminate, 7 LAC pending,
+    # 8 LAC tunneled) x automata absent / fresh / Opened x IPv6CP open
+    cfgs = [(ph, v6, fsm) for ph in range(9) for (v6, fsm) in ((0, 0), (0, 1), (1, 1), (1, 2))]
     bodies = [b"", b"\x01", b"\x00\x21", b"\xc0\x21\x00", b"\x01\x04\x05\xdc", bytes(range(8)), b"\x05\x06\x01\x02\x03\x04\x03\x05\xc2\x23\x05"]
     for p in protos:
         for (net, v6, fsm) in cfgs:
@@ -566,7 +569,8 @@ def gen_cases(rng, tier, budget):
     wf6 = (b"\x60\x00\x00\x00" + be16(160) + b"\x11\x40" + b"\xfe\x80" + bytes(14) + b"\xff\x02" + bytes(11) + b"\x01\x00\x02"
            + be16(546) + be16(547) + be16(160) + b"\x00\x00" + b"\x01\x0a\x0b\x0c" + be16(1) + be16(10) + bytes(range(10)) + bytes(range(134)))
     assert len(wf6) == 200
-    v6states = [(1, 1, 1), (2, 1, 1), (3, 1, 1), (1, 1, 2), (2, 1, 2), (0, 1, 1), (1, 0, 1), (1, 0, 0), (3, 0, 0)]
+    v6states = [(1, 1, 1), (2, 1, 1), (3, 1, 1), (1, 1, 2), (2, 1, 2), (0, 1, 1), (1, 0, 1), (1, 0, 0), (3, 0, 0),
+                (4, 1, 1), (5, 1, 1), (6, 1, 1), (7, 1, 1), (8, 1, 2)]
     for n in list(range(0, 42)) + [60, 200]:
         for nib in (0, 4, 6, 15):
             for body in (wf6[:n], bytes((7 * i + 3) & 0xff for i in range(n))):
@@ -584,7 +588,7 @@ def gen_cases(rng, tier, budget):
                 data = bytes((5 * i + 1) & 0xff for i in range(n))
                 for decl in sorted({4 + n, 4, max(0, 3 + n), 5 + n, 0}):
                     fr = bytes([code, 7]) + be16(decl) + data
-                    for st in ((1, 0, 0), (0, 0, 1), (2, 1, 2)):
+                    for st in ((1, 0, 0), (0, 0, 1), (2, 1, 2), (6, 1, 2), (7, 0, 1)):
                         add(case("disp", [proto] + list(st), fr))
                     add(case("fzsess", [proto, 3], fr))
                     add(case("fzsess", [proto, 9], fr))
@@ -601,7 +605,7 @@ def gen_cases(rng, tier, budget):
             add(case("disp", [0xc021, 1, 0, 1], b"\x01\x01" + be16(L) + b"\x01\x04\x05\xdc"))
 
     def disp_emit(b):
-        add(case("disp", [rng.choice(protos), rng.choice([0, 1, 2, 3]), 0, rng.choice([0, 1, 2])], b))
+        add(case("disp", [rng.choice(protos), rng.randrange(9), 0, rng.choice([0, 1, 2])], b))
         pre = rng.choice([b"", b"\xff\x03", b"\xff", b"\xff\x03\xff\x03"])
         add(case("l2ppp", [rng.randrange(2), rng.randrange(2), rng.randrange(2)], pre + be16(rng.choice(protos)) + b))
         add(case("fzsess", [rng.choice(protos[:6]), rng.choice([1, 2, 3, 4])], b))
@@ -750,17 +754,21 @@ def gen_cases(rng, tier, budget):
 
     # AC-Cookie validation: right / wrong length, stale / fresh timestamp, right / flipped HMAC (timestamps are fixed far in
     # the past / future so that the case list is the same on every run)
-    ck_mac, ck_key = b"\xaa\xbb\xcc\x00\x00\x01", b"c07-cookie-secret"
-    def ck_case(ts, n=36, flip=None, good=True):
+    # The key covers MAC (6 bytes), S-VLAN and C-VLAN: the presented (mac, svlan, cvlan) differs from the one the cookie was
+    # issued for in exactly one component, each byte of the MAC and each VLAN in turn, plus matching ones.
+    ck_key = b"c07-cookie-secret"
+    def ck_sig(mac, sv, cv, tsb):
+        return _hmac.new(ck_key, mac + be16(sv) + be16(cv) + tsb, hashlib.sha256).digest()
+    def ck_case(ts, n=36, flip=None, good=True, issued=(b"\xaa\xbb\xcc\x00\x00\x01", 100, 0), shown=None):
+        shown = shown or issued
         tsb = be32(ts)
-        sig = _hmac.new(ck_key, ck_mac + be16(100) + be16(0) + tsb, hashlib.sha256).digest()
-        c = bytearray((sig if good else rb(rng, 32)) + tsb)
+        c = bytearray((ck_sig(issued[0], issued[1], issued[2], tsb) if good else rb(rng, 32)) + tsb)
         if flip is not None:
             c[flip] ^= 1
         c = bytes(c)[:n] if n <= 36 else bytes(c) + rb(rng, n - 36)
-        d = _hmac.new(ck_key, ck_mac + be16(100) + be16(0) + c[32:36], hashlib.sha256).digest() if len(c) == 36 else b""
+        d = ck_sig(shown[0], shown[1], shown[2], c[32:36]) if len(c) == 36 else b""
         fresh = 1 if len(c) == 36 and int.from_bytes(c[32:36], "big") >= 4000000000 else 0
-        add(case("cookie", [fresh], c, d))
+        add(case("cookie", [fresh, shown[1], shown[2]], c, d, shown[0]))
     for ts in (4102444800, 4294967295, 1000, 0):
         ck_case(ts)
         ck_case(ts, good=False)
@@ -768,8 +776,18 @@ def gen_cases(rng, tier, budget):
             ck_case(ts, n=n)
         for fl in (0, 17, 31):
             ck_case(ts, flip=fl)
+    base_key = (b"\x02\x11\x22\x33\x44\x55", 0x0123, 0x0456)
+    for keyv in (base_key, (b"\xfe\xdc\xba\x98\x76\x54", 4094, 4094), (b"\x00" * 6, 1, 0)):
+        ck_case(4102444800, issued=keyv)
+        for i in range(6):
+            m2 = bytearray(keyv[0]); m2[i] ^= 0x01
+            ck_case(4102444800, issued=keyv, shown=(bytes(m2), keyv[1], keyv[2]))
+        for dv in (1, 0x100):
+            ck_case(4102444800, issued=keyv, shown=(keyv[0], keyv[1] ^ dv, keyv[2]))
+            ck_case(4102444800, issued=keyv, shown=(keyv[0], keyv[1], keyv[2] ^ dv))
+        ck_case(4102444800, issued=keyv, shown=(keyv[0], keyv[2], keyv[1]))      # VLANs swapped
     for s2 in short_strings("quick", False):
-        add(case("cookie", [0], s2, b""))
+        add(case("cookie", [0, 100, 0], s2, b"", b"\xaa\xbb\xcc\x00\x00\x01"))
     # L2TP challenge response: lengths around 16, right / wrong digest, trailing bytes
     cr_exp = hashlib.md5(bytes([3]) + b"secret" + b"0123456789abcdef").digest()
     for n in range(0, 20):
@@ -896,7 +914,43 @@ def gen_cases(rng, tier, budget):
         for n in range(0, 36):
             add(case("d6msg", [], b"\x01\x00\x00\x01" + be16(code) + be16(n) + bytes(range(n))))
             add(case("d6msg", [], b"\x01\x00\x00\x01" + be16(code) + be16(n + 1) + bytes(range(n))))
-    family(rng, tier, gen_d6msg, nv, 2 * nm, lambda b: add(case("d6msg", [], b)))
+    def d6_emit(b):
+        add(case("d6msg", [], b))
+        add(case("v6duid", [], b))
+        add(case("v6repl", [], b, rng.choice([b"", rb(rng, 10), rb(rng, 14), rb(rng, 1)])))
+        add(case("v6life", [rng.choice([0, 1, 3600, 0xffffffff]), rng.choice([0, 7200, 0xffffffff])], b))
+    family(rng, tier, gen_d6msg, nv, 2 * nm, d6_emit)
+    # nested IA options (IA inside IA inside IA ...) up to the MTU, server-id option lengths, short messages
+    def ia_nest(depth, code):
+        inner = ia_nest(depth - 1, code) if depth else be16(5) + be16(24) + bytes(24)
+        v = bytes(12) + inner
+        return be16(code) + be16(len(v)) + v
+    for depth in (1, 2, 5, 20, 80):
+        for code in (3, 25):
+            m = b"\x07\x00\x00\x01" + ia_nest(depth, code)
+            add(case("v6life", [3600, 7200], m[:1500]))
+            add(case("v6life", [3600, 7200], m))
+            add(case("d6msg", [], m))
+    # every length field rewriteV6Options reads, at every value round its bounds (IA body 12, IAAddr 24, IAPrefix 8), the
+    # sub-option at top level and inside IA_NA / IA_PD, declared length = actual and declared = actual + 1
+    pat = bytes((7 * i + 3) & 0xff for i in range(64))
+    for sub in (5, 26, 3, 25):
+        for n in range(0, 31):
+            o = be16(sub) + be16(n) + pat[:n]
+            for outer in (None, 3, 25):
+                body = o if outer is None else be16(outer) + be16(12 + len(o)) + pat[:12] + o
+                add(case("v6life", [3600, 7200], b"\x07\x00\x00\x01" + body))
+                add(case("v6life", [0xffffffff, 1], b"\x07\x00\x00\x01" + body[:-1]))
+                add(case("d6msg", [], b"\x07\x00\x00\x01" + body))      # the same boundaries through dhcp6.ParseMessage
+                add(case("d6msg", [], b"\x07\x00\x00\x01" + body[:-1]))
+                if outer is not None:       # the outer IA declares one byte less / more than the sub-option needs
+                    add(case("v6life", [5, 6], b"\x07\x00\x00\x01" + be16(outer) + be16(11 + len(o)) + pat[:12] + o))
+                    add(case("v6life", [5, 6], b"\x07\x00\x00\x01" + be16(outer) + be16(13 + len(o)) + pat[:12] + o + b"\x00"))
+    for n in range(0, 30):
+        m = b"\x07\x00\x00\x01" + be16(2) + be16(n) + bytes(range(n))
+        add(case("v6duid", [], m)); add(case("v6duid", [], m[:-1])); add(case("v6repl", [], m, bytes(10))); add(case("v6repl", [], m, bytes(n)))
+    for n in range(0, 9):
+        add(case("v6duid", [], bytes(n))); add(case("v6repl", [], bytes(n), b"x")); add(case("v6life", [1, 2], bytes(n)))
     family(rng, tier, lambda r: gen_d6relay(r, 12), nv, 2 * nm, lambda b: add(case("d6relay", [], b)))
     family(rng, tier, lambda r: gen_d6relay(r, 13), nv, 2 * nm,
            lambda b: (add(case("d6reply", [], b)), add(case("v6unwrap", [], b)), add(case("v6txid", [], b))))
@@ -933,6 +987,11 @@ def gen_cases(rng, tier, budget):
             add(case("d4msg", [], b))
     family(rng, tier, gen_dhcp4, nv, nm // 2 if q else nm, d4_emit, nsweep_quick=1)
     family(rng, tier, lambda r: gen_dhcp4(r, magic=False), 3, 20, d4_emit)
+    for n in (0, 1, 2, 3, 4, 5, 23, 24, 27, 28, 29, 240):
+        for hops in (0, 1, 254, 255):
+            pk = bytes([1, 1, 6, hops][:n]) + bytes((3 * i + 1) & 0xff for i in range(max(0, n - 4)))
+            for ip in (b"\x0a\x00\x00\x01", bytes(10) + b"\xff\xff\xc0\xa8\x01\x02", bytes(16), b"", b"\x01\x02\x03"):
+                add(case("gihops", [], pk, ip))
     for n in (0, 1, 27, 28, 235, 236, 237, 239, 240, 241, 242):
         d4_emit(bytes(n))
         d4_emit(b"\x01" * n)
